@@ -137,6 +137,7 @@ theorem takeFundPayment_ok {w : W} {amount : Nat} {asset : Asset} {pct : Dec} {f
     (h : takeFundPayment w amount asset pct fund = .ok r) :
     ∃ bank, r.2 = { w with s := { w.s with bank := bank } } := by
   unfold takeFundPayment at h
+  obtain ⟨_, _, h⟩ := bind_ok h
   obtain ⟨take, _, h⟩ := bind_ok h
   obtain ⟨bank, _, h⟩ := bind_ok h
   have := pure_ok h
